@@ -82,8 +82,9 @@ def merge( ranges, reach=1, limit=None ):
         return # no ranges; nothing to merge
     for address, count in input:
         if length:
-            if ( address // 10000 == base // 10000
-                 and address < base + length + ( reach or 1 )):
+            if ( address < base + length
+                 or ( address // 10000 == base // 10000
+                      and address < base + length + ( reach or 1 ))):
                 log.debug( "Merging:  %10r + %10r == %r" % (
                         (base,length), (address,count), (base,address+count-base)))
                 length	= max( length, address + count - base )
